@@ -157,7 +157,7 @@ def one_run(rec, lib, rnd, d, dir_mode, st, inproc):
     """Build a scratch tree, run the command, judge. Returns nothing."""
     files = {}
     nfiles = rnd.choice([2, 3]) if dir_mode else 1
-    single_name = rnd.choice(SINGLE_NAMES)
+    single_name = rnd.choice(SINGLE_NAMES) if inproc else rnd.choice(["thème.css", "my sheet.css", "sheet.css", "admin_cm.css"])
     dbg = (255, 255, 255) if st["default_bg"] is None else csscolor.read(st["default_bg"])
     for k in range(nfiles):
         sheet = SS.make_sheet(rnd, premium=st["premium"], default_bg=dbg, rich=True, tag=f"f{k}r")
@@ -276,6 +276,10 @@ def run_strace(args, cwd):
                     if any(fl in argtxt for fl in ("O_WRONLY", "O_RDWR", "O_CREAT", "O_TRUNC", "O_APPEND")) or name == "creat":
                         pm = re.search(r'"((?:[^"\\]|\\.)*)"', argtxt)
                         path = pm.group(1) if pm else argtxt
+                        try:   # strace prints non-ASCII bytes as octal escapes
+                            path = path.encode("latin-1", "backslashreplace").decode("unicode_escape").encode("latin-1").decode("utf-8")
+                        except (UnicodeError, ValueError):
+                            pass
                         if path in ("/dev/null", "/dev/tty") or path.startswith("/proc/") or path.startswith("/dev/"):
                             continue
                         events.append(("open-for-write", path, argtxt[-60:]))
